@@ -293,8 +293,10 @@ def describe_verify_args(args):
         return f".pkcs1v15 {lstr(args[3].name)}"
     if len(args) == 4 and isinstance(args[2], padding.PSS):
         p = args[2]
-        salt_max = p._salt_length is padding.PSS.MAX_LENGTH
-        return f".pss {lstr(p._mgf._algorithm.name)} {lstr(args[3].name)} {lbool(salt_max)}"
+        sl = p._salt_length
+        salt = ("max" if sl is padding.PSS.MAX_LENGTH else "auto" if sl is padding.PSS.AUTO
+                else "digest" if sl is padding.PSS.DIGEST_LENGTH else str(int(sl)))
+        return f".pss {lstr(p._mgf._algorithm.name)} {lstr(args[3].name)} {lstr(salt)}"
     return f".other {lstr(repr(args)[:80])}"
 
 
